@@ -460,6 +460,46 @@ func c18Accumulators(c *Ctx, r *Report) {
 		}
 	}
 	r.ok("C18-R3-accumulator-scope", "scan", "", "package-level variables scanned for accumulator type; accumulators are assigned only by the construction inside expandComponents")
+	// the roll-over mask is fixed by the constructor: nothing else writes it, and nothing overwrites a
+	// whole accumulator (a `*a = uint32Accumulator{}` reset leaves mask 0 behind a non-nil pointer, so
+	// the lazy construction never runs again and every later delta is masked to 0)
+	nSt := 0
+	for _, fn := range c.moduleFuncs() {
+		if fnPkgPath(fn) != modPath || fn.Synthetic != "" {
+			continue
+		}
+		for _, b := range fn.Blocks {
+			for _, ins := range b.Instrs {
+				st, ok := ins.(*ssa.Store)
+				if !ok {
+					continue
+				}
+				pt, ok := st.Addr.Type().Underlying().(*types.Pointer)
+				if !ok {
+					continue
+				}
+				whole := types.Identical(pt.Elem(), accT.Type())
+				maskField := false
+				if fa, isFA := st.Addr.(*ssa.FieldAddr); isFA {
+					if fpt, ok := fa.X.Type().Underlying().(*types.Pointer); ok && types.Identical(fpt.Elem(), accT.Type()) {
+						nSt++
+						stt := accT.Type().Underlying().(*types.Struct)
+						maskField = stt.Field(fa.Field).Name() == "mask"
+					}
+				}
+				if whole {
+					if al, isAlloc := st.Addr.(*ssa.Alloc); isAlloc && al.Parent() == fn && fn.Name() == "uint32NewAccumulator" {
+						continue
+					}
+					r.fail("C18-R3-accumulator-mask", fn.Name()+"/whole-store", c.pos(st.Pos()), "an accumulator is overwritten as a whole in "+fn.Name()+": its roll-over mask is lost (a zero value has mask 0) while the pointer stays non-nil, so the construction with the component's width never runs again and every accumulated value from then on is 0")
+				}
+				if maskField && fn.Name() != "uint32NewAccumulator" {
+					r.fail("C18-R3-accumulator-mask", fn.Name()+"/mask-store", c.pos(st.Pos()), "the roll-over mask of an accumulator is written outside its constructor, in "+fn.Name())
+				}
+			}
+		}
+	}
+	r.ok("C18-R3-accumulator-mask", "scan", "", fmt.Sprintf("%d stores into accumulator fields: the mask is written by the constructor only and no accumulator is overwritten as a whole", nSt))
 }
 
 func stmtStr(c *Ctx, s ast.Stmt) string {
